@@ -272,6 +272,12 @@ pub fn run(p: &Params) -> Report {
                     rep.count("skipped:private_keys_or_having");
                     continue;
                 }
+                if q.features.contains(&"join_nonkey") {
+                    // the tracking restricts such a join to pairs of rows of the same unit: the rewritten
+                    // query deliberately computes something else than the original
+                    rep.count("skipped:join_of_protected_tables_not_on_the_unit");
+                    continue;
+                }
                 // generous multiplicity so that clipping stays inactive (checked, not assumed)
                 let params = DpParameters::new(*r.pick(&[0.5, 1.0, 10.0]), *r.pick(&[1e-5, 1e-3]), 0.5, 100.0, 1.0, *r.pick(&[2u64, 5, 10]));
                 check(&q, &w, &params, rep);
